@@ -4,6 +4,7 @@ import (
 	"go/ast"
 	"go/constant"
 	"go/types"
+	"morlockverif/checker/internal/core"
 )
 
 // EvalExpr evaluates a package-level initialiser expression made of constants and composite
@@ -26,7 +27,7 @@ func EvalExpr(info *types.Info, e ast.Expr) (Value, bool) {
 					name := kv.Key.(*ast.Ident).Name
 					idx := -1
 					for j := 0; j < u.NumFields(); j++ {
-						if u.Field(j).Name() == name {
+						if core.FieldName(u.Field(j)) == name {
 							idx = j
 						}
 					}
